@@ -99,18 +99,42 @@ func setupSteps() []Op {
 
 func gridIngest(emit func(Case)) {
 	targets := []string{"t1", "t2"}
-	for _, pf := range gridPrefixes() {
-		for _, ph := range gridPaths() {
-			for _, at := range []bool{false, true} {
-				for _, v := range gridValues() {
-					n := &Noti{TS: 2, Prefix: pf, Atomic: at, Upd: []Upd{{Path: ph, Val: v}}}
-					ops := append(setupSteps(), Op{K: "msg", N: n}, Op{K: "refresh"})
-					emit(Case{Family: "ingest-grid-update", Kind: "ingest", Targets: targets, Ops: ops})
+	// grid messages are applied six at a time to one cache after the setup
+	// (later messages of a group meet whatever the earlier ones stored)
+	var group []Op
+	flush := func() {
+		if len(group) == 0 {
+			return
+		}
+		ops := append(setupSteps(), group...)
+		ops = append(ops, Op{K: "refresh"})
+		emit(Case{Family: "ingest-grid", Kind: "ingest", Targets: targets, Ops: ops})
+		group = nil
+	}
+	add := func(n *Noti) {
+		group = append(group, Op{K: "msg", N: n})
+		if len(group) == 6 {
+			flush()
+		}
+	}
+	ts := int64(2)
+	for _, v := range gridValues() {
+		for _, at := range []bool{false, true} {
+			for _, pf := range gridPrefixes() {
+				for _, ph := range gridPaths() {
+					ts++
+					add(&Noti{TS: 2 + ts%3, Prefix: pf, Atomic: at, Upd: []Upd{{Path: ph, Val: v}}})
 				}
+			}
+		}
+	}
+	flush()
+	for _, at := range []bool{false, true} {
+		for _, pf := range gridPrefixes() {
+			for _, ph := range gridPaths() {
 				if ph != nil {
-					n := &Noti{TS: 2, Prefix: pf, Atomic: at, Del: []GPath{*ph}}
-					ops := append(setupSteps(), Op{K: "msg", N: n}, Op{K: "refresh"})
-					emit(Case{Family: "ingest-grid-delete", Kind: "ingest", Targets: targets, Ops: ops})
+					add(&Noti{TS: 2, Prefix: pf, Atomic: at, Del: []GPath{*ph}})
+					flush()
 				}
 			}
 		}
@@ -420,10 +444,13 @@ func (g *gen) randomCli() Case {
 func gridCli(emit func(Case)) {
 	paths := []*GPath{nil, {}, {Elems: names("a")}, {Elems: names("a", "b")}, {Element: []string{"c"}}}
 	prefixes := []*GPath{nil, {}, {Target: "t"}, {Origin: "o"}}
-	vals := []TV{{K: "nil"}, {K: "int", I: 1}, {K: "any"}, {K: "leaflist", L: []TV{{K: "int", I: 1}}}, {K: "json", S: `{"a":1}`}}
+	vals := []TV{{K: "nil"}, {K: "int", I: 1}, {K: "any"}}
 	for _, dt := range []string{"group", "single", "proto"} {
 		for _, qt := range []string{"once", "stream"} {
 			for _, ts := range []bool{false, true} {
+				if ts && dt != "group" {
+					continue
+				}
 				for _, pf := range prefixes {
 					for _, ph := range paths {
 						for _, v := range vals {
